@@ -17,6 +17,9 @@ class CaseTimeout(Exception):
     pass
 
 
+WALL_FACTOR = 8
+
+
 def _alarm(signum, frame):
     raise CaseTimeout()
 
@@ -42,10 +45,15 @@ def run_one(mod, cls, idx, base_seed):
     numpy.random.seed(s % (2**32))
     obs = Obs(cls, idx, s)
     hostile = bool(mod.CLASSES[cls].get('hostile'))
+    # per-case watchdog in the process's own CPU time, so that a loaded machine cannot turn a fast case into an INCONCLUSIVE run;
+    # a generous wall-clock alarm stays behind it for cases that block without burning CPU (pools, pipes)
     timeout = int(getattr(mod, 'CASE_TIMEOUT', 120))
     old = signal.signal(signal.SIGALRM, _alarm)
-    signal.alarm(timeout)
+    oldp = signal.signal(signal.SIGPROF, _alarm)
+    signal.setitimer(signal.ITIMER_PROF, timeout)
+    signal.alarm(WALL_FACTOR * timeout)
     status = 'ok'
+    t0 = time.process_time()
     try:
         mod.run_case(cls, idx, rng, obs)
     except CaseTimeout:
@@ -57,10 +65,13 @@ def run_one(mod, cls, idx, base_seed):
         else:
             obs.violation('exception:%s' % type(e).__name__, message=str(e)[:300], traceback=tb)
     finally:
+        signal.setitimer(signal.ITIMER_PROF, 0)
         signal.alarm(0)
         signal.signal(signal.SIGALRM, old)
+        signal.signal(signal.SIGPROF, oldp)
     r = obs.result()
     r['status'] = status
+    r['cpu_s'] = time.process_time() - t0
     return r
 
 
@@ -76,7 +87,7 @@ def worker(prop, tier, k, n, outpath, base_seed):
     cases = all_cases(mod, tier)
     mine = [c for i, c in enumerate(cases) if i % n == k]
     agg = {'cases': 0, 'classes': {}, 'events': {}, 'nontrivial_keys': [], 'violations': [],
-           'nviol': 0, 'samples': [], 'timeouts': [], 'skipped': 0}
+           'nviol': 0, 'samples': [], 'timeouts': [], 'skipped': 0, 'slowest': [0.0, None, None]}
     keys = set()
     persample = {}
     t0 = time.time()
@@ -91,6 +102,8 @@ def worker(prop, tier, k, n, outpath, base_seed):
         agg['cases'] += 1
         c = agg['classes'].setdefault(cls, {'cases': 0, 'nontrivial': 0, 'skipped': 0, 'violating': 0})
         c['cases'] += 1
+        if r['cpu_s'] > agg['slowest'][0]:
+            agg['slowest'] = [round(r['cpu_s'], 3), cls, idx]
         if r['status'] == 'timeout':          # what the monitors recorded before the watchdog fired still counts
             agg['timeouts'].append([cls, idx])
             r['nontrivial'] = False
@@ -222,6 +235,7 @@ def main(argv=None):
     from . import findings
     ncases = sum(p['cases'] for p in parts)
     events, classes, keys, viols, samples, timeouts = {}, {}, set(), [], [], []
+    slowest = [0.0, None, None]
     nviol = 0
     for p in parts:
         for e, v in p['events'].items():
@@ -234,6 +248,7 @@ def main(argv=None):
         nviol += p['nviol']
         samples.extend(p['samples'])
         timeouts.extend(p['timeouts'])
+        if p.get('slowest', [0])[0] > slowest[0]: slowest = p['slowest']
     samples.sort(key=lambda s: (s['class'], s['idx']))
     seen, keep = {}, []
     for s in samples:
@@ -270,7 +285,8 @@ def main(argv=None):
            'samples': samples or [{'note': 'no non-trivial sample'}],
            'monitor_events': events, 'classes': classes,
            'known_findings_observed': known_counts, 'inconclusive': inconclusive,
-           'workers': n, 'unexplained_violation_records': len(unexplained),
+           'workers': n, 'slowest_case': {'cpu_s': slowest[0], 'class': slowest[1], 'idx': slowest[2], 'watchdog_cpu_s': int(getattr(mod, 'CASE_TIMEOUT', 120))},
+           'unexplained_violation_records': len(unexplained),
            'violation_records_total': nviol}
     wall = time.time() - t0
     write_evidence(mod, tier, base_seed, cov, len(unexplained), wall, list(getattr(mod, 'ASSUMPTIONS', [])))
